@@ -253,6 +253,10 @@ fn check_step(m: &mut Monitor, c: &Ctx, rec: &StepRec, last: &mut Vec<Option<Act
                     "C23:close:stranger_closed_an_action",
                     c.wit(json!({"action": format!("{:?}", a.addr), "pre": st(pre)})),
                 ),
+                Who::Receiver => m.violation(
+                    "C23:close:non_owner_receiver_closed_an_action",
+                    c.wit(json!({"action": format!("{:?}", a.addr), "pre": st(pre), "signer": format!("{:?}", sim.who(Who::Receiver, a))})),
+                ),
                 Who::Keeper if pre == Some(ActionState::Pending) => m.violation(
                     "C23:close:keeper_closed_a_pending_action",
                     c.wit(json!({"action": format!("{:?}", a.addr)})),
@@ -321,7 +325,7 @@ fn check_step(m: &mut Monitor, c: &Ctx, rec: &StepRec, last: &mut Vec<Option<Act
             if a.kind.is_glv() {
                 m.count(&format!("close_rejected_{}_by_{who:?}_{}", kind_name(a), st(pre)));
             }
-            if *who == Who::Stranger || (*who == Who::Keeper && pre == Some(ActionState::Pending)) {
+            if *who == Who::Stranger || *who == Who::Receiver || (*who == Who::Keeper && pre == Some(ActionState::Pending)) {
                 m.eval();
                 m.nontrivial(format!("close_denied:{}:{:?}:{}", kind_name(a), who, st(pre)).as_bytes());
             }
